@@ -186,6 +186,10 @@ extern "C" int pthread_create(pthread_t * t, const pthread_attr_t * a, void * (*
     s->fn = fn; s->arg = arg; s->ord = __atomic_add_fetch(&g_nthreads, 1, __ATOMIC_RELAXED);
     int r = real(t, a, vp_tramp, s);
     pause_check('S', ++t_cntS);
+    // $VP_CHILD_FIRST=<ms>: the creator pauses after starting a thread - native counterpart of llsym's second base schedule
+    static int cf = -1;
+    if (cf < 0) { const char * p = getenv("VP_CHILD_FIRST"); cf = p ? atoi(p) : 0; }
+    if (cf > 0) usleep(static_cast<useconds_t>(cf) * 1000);
     return r;
 }
 
